@@ -298,7 +298,8 @@ num_hashes , num_buckets , seed , seed_hash , total_weight : T :: ZERO , counts 
 
 
 
-    fn new ( num_hashes : u8 , num_buckets : u32 ) -> ( r : Self ) requires cm_law :: < T > ( ) , num_hashes > 0 , num_buckets >= 3 , ( num_hashes as int ) * ( num_buckets as int ) < MAX_TABLE_ENTRIES , seed_hash_spec ( DEFAULT_UPDATE_SEED ) != 0 , ensures r . wf ( ) , r . num_hashes == num_hashes , r . num_buckets == num_buckets , r . seed == DEFAULT_UPDATE_SEED ,
+    fn new ( num_hashes : u8 , num_buckets : u32 ) -> ( r : Self ) requires cm_law :: < T > ( ) , seed_hash_spec ( DEFAULT_UPDATE_SEED ) != 0 , ensures r . wf ( ) ,
+/*@C08.new_config_validated*/ num_hashes > 0 && num_buckets >= 3 && ( num_hashes as int ) * ( num_buckets as int ) < MAX_TABLE_ENTRIES , r . num_hashes == num_hashes , r . num_buckets == num_buckets , r . seed == DEFAULT_UPDATE_SEED ,
 /*@C18.cm_fixed_size*/ r . counts @ . len ( ) == ( num_hashes as int ) * ( num_buckets as int ) ,
 /*@C08.empty_model*/ r . models ( Seq :: < Ev > :: empty ( ) ) , {
 Self :: with_seed ( num_hashes , num_buckets , DEFAULT_UPDATE_SEED ) }
@@ -306,7 +307,8 @@ Self :: with_seed ( num_hashes , num_buckets , DEFAULT_UPDATE_SEED ) }
 
 
 
-    fn with_seed ( num_hashes : u8 , num_buckets : u32 , seed : u64 ) -> ( r : Self ) requires cm_law :: < T > ( ) , num_hashes > 0 , num_buckets >= 3 , ( num_hashes as int ) * ( num_buckets as int ) < MAX_TABLE_ENTRIES , seed_hash_spec ( seed ) != 0 , ensures r . wf ( ) , r . num_hashes == num_hashes , r . num_buckets == num_buckets , r . seed == seed ,
+    fn with_seed ( num_hashes : u8 , num_buckets : u32 , seed : u64 ) -> ( r : Self ) requires cm_law :: < T > ( ) , seed_hash_spec ( seed ) != 0 , ensures r . wf ( ) ,
+/*@C08.with_seed_config_validated*/ num_hashes > 0 && num_buckets >= 3 && ( num_hashes as int ) * ( num_buckets as int ) < MAX_TABLE_ENTRIES , r . num_hashes == num_hashes , r . num_buckets == num_buckets , r . seed == seed ,
 /*@C18.cm_fixed_size*/ r . counts @ . len ( ) == ( num_hashes as int ) * ( num_buckets as int ) ,
 /*@C08.empty_model*/ r . models ( Seq :: < Ev > :: empty ( ) ) , {
 let entries = entries_for_config ( num_hashes , num_buckets ) ;
@@ -558,12 +560,13 @@ lemma_cell_bound ( r , b , self . num_hashes as int , self . num_buckets as int 
 
 
 
-    fn decay ( & mut self , decay : f64 ) requires old ( self ) . wf ( ) , decay_ok ( decay ) , ensures final ( self ) . wf ( ) ,
+    fn decay ( & mut self , decay : f64 ) requires old ( self ) . wf ( ) , ensures final ( self ) . wf ( ) ,
+/*@C08.decay_range_validated*/ decay_ok ( decay ) ,
 /*@C18.cm_fixed_size*/ final ( self ) . same_config ( old ( self ) ) ,
 /*@C08.decay_cells*/ forall | i : int | 0 <= i < old ( self ) . counts @ . len ( ) ==> # [ trigger ] final ( self ) . counts @ [ i ] . val ( ) == decay_spec ( old ( self ) . counts @ [ i ] . val ( ) , decay ) ,
 /*@C08.decay_total*/ final ( self ) . total_weight . val ( ) == decay_spec ( old ( self ) . total_weight . val ( ) , decay ) ,
 /*@C08.decay_model*/ forall | h : Seq < Ev > | # [ trigger ] old ( self ) . models ( h ) ==> final ( self ) . models ( h . push ( Ev :: Decay ( decay ) ) ) , {
-assert! ( vx_decay_in_range ( decay ) ) ;
+vx_documented_panic ( vx_decay_in_range ( decay ) ) ;
 let ghost tw0 = self . total_weight ;
 let mut vx_i1 = 0 ;
 #[verifier::loop_isolation(false)]
@@ -601,14 +604,15 @@ fn make_hash_seeds(seed: u64, num_hashes: u8) -> (r: Vec<u64>)
   ensures r@ == seeds_spec(seed, num_hashes), r@.len() == num_hashes,
 { unimplemented!() }
 
-fn entries_for_config ( num_hashes : u8 , num_buckets : u32 ) -> ( entries : usize ) requires num_hashes > 0 , num_buckets >= 3 , ( num_hashes as int ) * ( num_buckets as int ) < MAX_TABLE_ENTRIES , ensures entries == ( num_hashes as int ) * ( num_buckets as int ) , entries < MAX_TABLE_ENTRIES , {
-assert! ( num_hashes > 0 ) ;
-assert! ( num_buckets >= 3 ) ;
+fn entries_for_config ( num_hashes : u8 , num_buckets : u32 ) -> ( entries : usize ) ensures
+/*@C08.config_validated*/ num_hashes > 0 && num_buckets >= 3 && ( num_hashes as int ) * ( num_buckets as int ) < MAX_TABLE_ENTRIES , entries == ( num_hashes as int ) * ( num_buckets as int ) , entries < MAX_TABLE_ENTRIES , {
+vx_documented_panic ( num_hashes > 0 ) ;
+vx_documented_panic ( num_buckets >= 3 ) ;
 proof {
 assert ( num_hashes as int * num_buckets as int <= 255 * 0xffff_ffff ) by ( nonlinear_arith ) requires num_hashes <= 255 , num_buckets <= 0xffff_ffff ;
 }
 let entries = ( num_hashes as usize ) . checked_mul ( num_buckets as usize ) . expect ( "" ) ;
-assert! ( entries < MAX_TABLE_ENTRIES ) ;
+vx_documented_panic ( entries < MAX_TABLE_ENTRIES ) ;
 entries }
 
 
